@@ -7,6 +7,7 @@ import WacProofs.Lemmas.GraphInvUnsetArg
 import WacProofs.Lemmas.GraphInvDefine2
 import WacProofs.Lemmas.GraphInvRemove2
 import WacProofs.Lemmas.GraphInvUnreg4
+import WacProofs.Lemmas.GraphNoPanic2
 /-
   C06 — the graph API stays consistent over every operation history.
 
@@ -207,6 +208,45 @@ example : (∀ o ∈ (run ctxW {} [.register pkgW, .instantiate ⟨0, 0⟩, .ins
     .defineType ['u'] 0, .unsetArg 1 ['a'] 2, .unexport 2, .setArg 1 ['a'] 2, .removeNode 0, .removeNode 4,
     .instantiate ⟨0, 0⟩, .unregister ⟨0, 0⟩, .register pkgW]).2, o.isPanic = false) := by decide
 
+/-! ### no call with live identifiers panics
+
+  Full statement: `no_panic_live : Inv ctx g → LiveIds g op = true → (step ctx g op).2.isPanic = false`
+  for every `op`.  Proved for every operation except `remove_node` (`no_panic_live_partial`);
+  for `remove_node` what is missing is the termination argument of the recursive cascade within
+  the model's fuel (acyclicity of alias / dependency edges, true by construction but not yet a
+  conjunct of `Inv`).  The driver checks "no panic with live identifiers" on every call of every
+  generated history. -/
+
+/-- the operations covered by `no_panic_live_partial` -/
+def notRemoveNode : Op → Bool
+  | .removeNode _ => false
+  | _ => true
+
+theorem no_panic_live_partial (ctx : Ctx) (g : Graph) (op : Op) (h : Inv ctx g) (hl : LiveIds g op = true)
+    (hop : notRemoveNode op = true) : (step ctx g op).2.isPanic = false := by
+  unfold step stepWith
+  cases op with
+  | register d => exact noPanic_register h d
+  | unregister id => exact noPanic_unregister h (by simpa [LiveIds] using hl)
+  | defineType name ty => exact noPanic_defineType g name ty
+  | importItem name kind => exact noPanic_importItem g name kind
+  | instantiate id => exact noPanic_instantiate (by simpa [LiveIds] using hl)
+  | alias inst ename => exact noPanic_alias (by simpa [LiveIds] using hl) ename
+  | setArg inst name arg =>
+    simp only [LiveIds, Bool.and_eq_true] at hl
+    exact noPanic_setArg h name hl.1 hl.2
+  | unsetArg inst name arg =>
+    simp only [LiveIds, Bool.and_eq_true] at hl
+    exact noPanic_unsetArg h name hl.1
+  | exportNode n name => exact noPanic_export (by simpa [LiveIds] using hl) name
+  | unexport n => exact noPanic_unexport h (by simpa [LiveIds] using hl)
+  | setName n name => exact noPanic_setName (by simpa [LiveIds] using hl) name
+  | removeNode n => simp [notRemoveNode] at hop
+
+-- non-vacuity: live identifiers in a non-trivial state
+example : LiveIds (run ctxW {} [.register pkgW, .instantiate ⟨0, 0⟩, .instantiate ⟨0, 0⟩, .alias 0 ['a']]).1
+    (.setArg 1 ['a'] 2) = true := by decide
+
 /-! ### removal leaves no trace -/
 
 /-- `remove_node n`: afterwards the slot is vacant, no edge mentions it, none of the maps
@@ -250,6 +290,38 @@ theorem remove_no_trace (ctx : Ctx) (g g' : Graph) (n : Nat) (h : Inv ctx g)
     | definition ty => simp [Node.sat, hk] at hi
     | «import» nm => simp [Node.sat, hk] at hi
     | alias => simp [Node.sat, hk] at hi
+
+/-- `unregister_package id`: afterwards the graph is consistent, no surviving node refers to
+    the package (instantiations of it and the aliases that inherited its id are gone — and with
+    `Inv` their edges, map entries and the satisfied indices they supplied), the id is dead and
+    its key is free for a new registration -/
+theorem unregister_no_trace (ctx : Ctx) (g g' : Graph) (id : PkgId) (h : Inv ctx g)
+    (hs : step ctx g (.unregister id) = (g', .ok .unit)) :
+    Inv ctx g' ∧ (∀ m x, g'.node? m = some x → x.pkg ≠ some id) ∧ g'.pkgLive id = false ∧
+    ∃ d, g.pkgOf id = .ok d ∧ getPackageByName g' d.key = none := by
+  have hinv := inv_step ctx g g' (.unregister id) (.ok .unit) h hs rfl
+  have hs' : unregisterPackage .fixed g id = (g', .ok .unit) := by simpa [step, stepWith] using hs
+  obtain ⟨slot, d, g1, hslot, hgen, hd, hc, _, rfl⟩ := unregister_full hs'
+  obtain ⟨_, hused, _, _, _⟩ := inv_unregMid h hc
+  have hlt : id.index < g.pkgs.length := by
+    rcases Nat.lt_or_ge id.index g.pkgs.length with hl | hl
+    · exact hl
+    · rw [List.getElem?_eq_none hl] at hslot; cases hslot
+  refine ⟨hinv, hused, ?_, d, ?_, ?_⟩
+  · have hp : (vacate (unregMid g g1 id) g id d slot.gen).pkgs = g.pkgs.set id.index ⟨none, slot.gen + 1⟩ := rfl
+    unfold Graph.pkgLive Graph.pkgOf
+    rw [hp, List.getElem?_set_self hlt]
+    have : slot.gen + 1 ≠ id.gen := by omega
+    simp [this]
+  · unfold Graph.pkgOf
+    rw [hslot]
+    simp [hgen, hd]
+  · unfold getPackageByName
+    show alGet (alErase g.pkgMap d.key) d.key = none
+    rw [Wac.Graph.alGet_none_iff]
+    intro hmem
+    obtain ⟨e, he, hk⟩ := List.mem_map.mp hmem
+    exact ((alErase_mem h.pkgMapKeys e).mp he).2 hk
 
 /-! ### stale package identifiers -/
 
